@@ -27,6 +27,7 @@ SlabOK(t) ==
   IN /\ got = SlabRows(UcPts(t), s.lo, s.hi, t.n)
      /\ Len(s.rows) = Cardinality(got)
      /\ s.n_uc = Len(t.uc.rows) /\ s.n_cells = ncell
+     /\ \A i \in DOMAIN s.rows : \A c \in Idx : s.rows[i].fl[c] = 0
      /\ \A i \in DOMAIN s.rows :
           \E j \in DOMAIN t.uc.rows :
              /\ t.uc.rows[j].asym = s.rows[i].asym
@@ -40,8 +41,10 @@ Verdict(t) ==
   IF g # "ok" THEN g ELSE
   IF t.uc.exc # "" THEN "REJECT Raised" ELSE
   IF t.uc.off THEN "REJECT OnGrid" ELSE
-  IF ~(\A i \in DOMAIN rows : \A c \in Idx : rows[i].p[c] \in 0..(N-1)) THEN "REJECT InCell" ELSE
-  IF Cardinality({rows[i].p : i \in DOMAIN rows}) # Len(rows) THEN "REJECT Duplicate" ELSE
+  \* fl = floor of each reported fractional coordinate: it must be 0, i.e. the coordinate lies in [0,1)
+  IF ~(\A i \in DOMAIN rows : \A c \in Idx : rows[i].fl[c] = 0 /\ rows[i].p[c] \in 0..(N-1)) THEN "REJECT InCell" ELSE
+  IF Cardinality({rows[i].p : i \in DOMAIN rows}) # Len(rows)
+     THEN "REJECT Duplicate" \o (IF t.decimals > 0 THEN " KF=C01-face-images" ELSE "") ELSE
   IF ~(\A i \in DOMAIN rows : rows[i].asym \in DOMAIN t.asym) THEN "REJECT ParentIndex" ELSE
   IF UcPts(t) # ExpectedCellT(tab) THEN "REJECT Orbit" ELSE
   IF ~(\A i \in DOMAIN rows : rows[i].op \in CodeSet(t.ops) /\ Img(rows[i].op, t.asym[rows[i].asym].p, N) = rows[i].p)
@@ -52,7 +55,7 @@ Verdict(t) ==
      THEN "REJECT Occupancy" ELSE
   IF Sum([i \in DOMAIN rows |-> rows[i].occ]) # Len(t.ops) * Sum([s \in DOMAIN t.asym |-> t.asym[s].occ])
      THEN "REJECT OccupancyTotal" ELSE
-  IF ~(\A k \in DOMAIN t.uc.cc : Dot(t.gram, rows[t.uc.cc[k][1]].p, rows[t.uc.cc[k][2]].p) = t.uc.cc[k][3])
+  IF ~(\A k \in DOMAIN t.uc.cc : Dot(t.gram, rows[t.uc.cc[k][1]].pr, rows[t.uc.cc[k][2]].pr) = t.uc.cc[k][3])
      THEN "REJECT Cartesian" ELSE
   IF t.slab.exc # "" THEN "REJECT SlabRaised" ELSE
   IF t.slab.off THEN "REJECT SlabOnGrid" ELSE
